@@ -1,10 +1,11 @@
 """C14 — Program size never changes meaning."""
 
-from ..rules import encoding
+from ..rules import frontend, encoding
 
 
 def run(ctx, rep):
     encoding.rule_checked_encoding(ctx, rep, "C14-R1")
     encoding.rule_single_encoder(ctx, rep, "C14-R2")
     encoding.rule_decoder_agreement(ctx, rep, "C14-R3")
+    frontend.rule_front_end_recursion_converted(ctx, rep, "C14-R4")
     rep.undecided += ["behaviour at sizes that exhaust host memory"]
